@@ -42,7 +42,7 @@ func sutHash(s string) uint64 {
 	length := len(data)
 	b := uint64(length) << 56
 	index := 0
-	end := ((length - 1) / 8) * 8
+	end := (length / 8) * 8
 	for index = 0; index < end; index += 8 {
 		m := binary.LittleEndian.Uint64(data[index:])
 		v3 ^= m
